@@ -9,6 +9,7 @@ real code: cog's pipeline generates Go and Python (generate_json_marshaller) for
 import collections
 import json
 import random
+import re
 
 from vlib import core
 from checks import semantics_common as sc
@@ -24,8 +25,9 @@ def select_for(ctx, replay):
         if replay:
             return [replay["schema_id"]]
         base = {i: e for i, e in cat.items() if i < pc.ID_BASE}
-        dids = sorted(i for i in cat if i > pc.ID_BASE)
+        dids = sorted(i for i in cat if i > pc.ID_BASE and (not ctx.quick() or i < pc.DEEP_BASE))
         if not ctx.quick():
+            # thorough: both enumerated catalogues + SemanticsDefaultsDeepMC (ids 20001..) + the seeded generated schemas (ids 30001..)
             return sorted(base) + dids
         rng = random.Random(ctx.seed)
         fixed = [i for i in dids if cat[i]["pos"] == "fixed"]
@@ -37,30 +39,56 @@ def select_for(ctx, replay):
     return select
 
 
-def field_at(schema, path):
-    """the struct field a document path ends at (None when the path ends inside an array / map or is undeclared)"""
+def node_at(schema, path, doc=None):
+    """(struct field the path ends at or None, type node reached), following the branch of a union that accepts the document's value"""
     S = sc.defs_of(schema)
     t = S[schema["root"]]
+    v = doc
     f = None
     for seg in path:
         while t["k"] in ("ref", "nullable"):
             t = S[t["name"]] if t["k"] == "ref" else t["t"]
         if t["k"] == "dunion":
-            hit = [S[r] for r in t["refs"] if pc._field(S[r], seg) is not None]
+            hit = [S[r] for r in t["refs"] if isinstance(v, dict) and sc.accepts_py(S, S[r], v)] or \
+                  [S[r] for r in t["refs"] if pc._field(S[r], seg) is not None]
             if not hit:
-                return None
+                return None, None
             t = hit[0]
         if t["k"] == "struct":
             f = pc._field(t, seg)
             if f is None:
-                return None
+                return None, None
             t = f["t"]
-        elif t["k"] in ("arr", "map"):
+            v = v.get(seg) if isinstance(v, dict) else None
+        elif t["k"] == "arr":
             f = None
             t = t["t"]
+            try:
+                v = v[int(seg[1:])] if isinstance(v, list) else None
+            except (ValueError, IndexError):
+                v = None
+        elif t["k"] == "map":
+            f = None
+            t = t["t"]
+            v = v.get(seg) if isinstance(v, dict) else None
         else:
+            return None, None
+    while t["k"] in ("ref", "nullable"):
+        t = S[t["name"]] if t["k"] == "ref" else t["t"]
+    return f, t
+
+
+def field_at(schema, path, doc=None):
+    return node_at(schema, path, doc)[0]
+
+
+def _at(v, path):
+    for seg in path:
+        try:
+            v = v[int(seg[1:])] if isinstance(v, list) else v.get(seg) if isinstance(v, dict) else None
+        except (ValueError, IndexError):
             return None
-    return f
+    return v
 
 
 def diff_class(schema, doc, want, got, got_is="python"):
@@ -70,19 +98,52 @@ def diff_class(schema, doc, want, got, got_is="python"):
         return "no-difference", None
     path, what = d
     pos, kind, _ = sc.walk(schema, list(path), doc)
-    f = field_at(schema, path)
+    f, node = node_at(schema, path, want)
     S = sc.defs_of(schema)
     if what == "added" and f is not None and not f["req"]:
         if f["def"]["j"] != "none":
             return "absent-optional-default-materialised", path
         if sc.resolve(S, f["t"])["k"] == "const":
             return "absent-optional-constant-materialised", path
-        val = got
-        for seg in path:
-            val = val[int(seg[1:])] if isinstance(val, list) else val.get(seg)
-        if val in ([], {}) and got_is == "python-vs-go":
+        if _at(got, path) in ([], {}) and got_is == "python-vs-go":
             return "optional-empty-collection-omitted-by-go", path
+    if what == "changed" and node is not None:
+        # classes that name the cause rather than the place (they occur at every position)
+        wv, gv = _at(want, path), _at(got, path)
+        if node["k"] == "arr" and sc.resolve(S, node["t"])["k"] == "int" and sc.resolve(S, node["t"])["w"] == "uint8" and (isinstance(wv, str) or isinstance(gv, str)):
+            return "uint8-array-as-base64-string", path
+        if node["k"] == "num" and node["w"] == "float32":
+            return "changed:float32-value", path
+        if node["k"] in ("int", "num") and any(isinstance(x, (int, float)) and not isinstance(x, bool) and abs(x) >= 7770000 for x in (wv, gv)):
+            return "changed:%s-beyond-2^53@%s" % (kind, pos), path
     return "%s:%s@%s" % (what, kind, pos), path
+
+
+def null_for_nullable_field(schema, doc):
+    """does the document hold null for a nullable struct FIELD whose type is an array / map / struct (needs decoding)"""
+    S = sc.defs_of(schema)
+
+    def walk(t, v):
+        t = sc.resolve(S, t)
+        if t["k"] == "nullable":
+            return walk(t["t"], v) if v is not None else False
+        if t["k"] == "arr" and isinstance(v, list):
+            return any(walk(t["t"], x) for x in v if x is not None)
+        if t["k"] == "map" and isinstance(v, dict):
+            return any(walk(t["t"], x) for x in v.values() if x is not None)
+        if t["k"] == "struct" and isinstance(v, dict):
+            for f in t["fields"]:
+                if f["n"] in v:
+                    if v[f["n"]] is None:
+                        if f["null"] and sc.resolve(S, f["t"])["k"] in ("arr", "map", "struct", "dunion"):
+                            return True
+                    elif walk(f["t"], v[f["n"]]):
+                        return True
+            return False
+        if t["k"] == "dunion" and isinstance(v, dict):
+            return any(walk(S[r], v) for r in t["refs"] if sc.accepts_py(S, S[r], v))
+        return False
+    return walk(S[schema["root"]], doc)
 
 
 def null_in_collection(schema, doc):
@@ -119,19 +180,25 @@ def run(ctx):
     if ctx.replay:
         replay = json.load(open(ctx.replay))["replay"]
         formats = (replay["format"],)
-    batch = pc.run_batch(ctx, select_for(ctx, replay), want_cases=True, formats=formats)
+        if replay["schema_id"] > pc.GEN_BASE:
+            ctx.seed = json.load(open(ctx.replay)).get("seed", ctx.seed)      # generated schemas are a function of the seed
+    deep = (not ctx.quick() and not replay) or bool(replay and (replay["schema_id"] > pc.DEEP_BASE or replay.get("deep")))
+    batch = pc.run_batch(ctx, select_for(ctx, replay), want_cases=True, formats=formats, deep=deep)
+    for cs in batch.cases.values():
+        for c in cs:
+            c["real"] = pc.detok(c["py"])       # tokens -> the real strings / integers the generated code and the validators see
     if replay and batch.cat[replay["schema_id"]]["schema"] != replay["schema"]:
         raise core.Inconclusive("the catalogue changed: schema %d is no longer the replay's schema" % replay["schema_id"])
 
     units = [u for u in batch.units.values() if u.get("py") == "ok" and u["status"] in ("ok", "not_executable")]
     # ---- reference validators: which documents does the source schema accept
-    ref = sc.ref_validate(ctx, batch, [(u["pkg"], [c["py"] for c in batch.cases[u["id"]]]) for u in units])
+    ref = pc.ref_validate(ctx, batch, [(u["pkg"], [c["real"] for c in batch.cases[u["id"]]]) for u in units])
     # ---- Go: json.Unmarshal + json.Marshal of every document (existing `doc` op)
     gocmds = []
     for u in units:
         if u["status"] == "ok":
             for c in batch.cases[u["id"]]:
-                gocmds.append({"op": "doc", "id": "%s/%d" % (u["pkg"], c["n"]), "type": u["type"], "doc": c["py"]})
+                gocmds.append({"op": "doc", "id": "%s/%d" % (u["pkg"], c["n"]), "type": u["type"], "doc": c["real"]})
     gores = sc.run_driver(ctx, batch, gocmds, "docs") if gocmds else {}
     # ---- Python: from_json + generated encoder for every accepted document
     pycmds = []
@@ -156,16 +223,32 @@ def run(ctx):
             if not (c["accepts"] and ra is True):
                 continue
             accepted[(u["pkg"], c["n"])] = c
-            pycmds.append({"op": "roundtrip", "id": "%s/%d" % (u["pkg"], c["n"]), "module": u["pkg"], "cls": root, "doc": c["py"]})
+            pycmds.append({"op": "roundtrip", "id": "%s/%d" % (u["pkg"], c["n"]), "module": u["pkg"], "cls": root, "doc": c["real"]})
             if c["f"] == "base":
-                pycmds.append({"op": "encode", "id": "%s/%d/e" % (u["pkg"], c["n"]), "module": u["pkg"], "cls": root, "doc": c["py"]})
+                pycmds.append({"op": "encode", "id": "%s/%d/e" % (u["pkg"], c["n"]), "module": u["pkg"], "cls": root, "doc": c["real"]})
     if not pycmds:
         raise core.Inconclusive("no accepted document reaches executable python")
     pyres = pc.run_pydriver(ctx, batch, pycmds, "roundtrip")
 
+    # ---- thorough: both directions. What Go wrote is read (and written again) by Python, what Python wrote by Go:
+    #      "data written by one generated SDK is readable by the other"
+    cross_py, cross_go = {}, {}
+    if deep:
+        c2py, c2go = [], []
+        for (pkg, n), c in accepted.items():
+            u = batch.units[pkg]
+            p, g = pyres["%s/%d" % (pkg, n)], gores.get("%s/%d" % (pkg, n))
+            if g is not None and g.get("std_err") is None and "enc" in g and not g.get("enc_err") and not g.get("panic"):
+                c2py.append({"op": "roundtrip", "id": "%s/%d" % (pkg, n), "module": pkg, "cls": batch.cat[u["id"]]["schema"]["root"], "doc": g["enc"]})
+            if p["ok"] and u["status"] == "ok":
+                c2go.append({"op": "doc", "id": "%s/%d" % (pkg, n), "type": u["type"], "doc": p["enc"]})
+        cross_py = pc.run_pydriver(ctx, batch, c2py, "go-to-python") if c2py else {}
+        cross_go = sc.run_driver(ctx, batch, c2go, "python-to-go") if c2go else {}
+
     # ---- join
     tw = pc.PyTraceWriter(ctx, batch, "c11")
     order = []
+    cross_implied = 0
     per_pos, per_kind, per_fmt, per_label, per_clause = (collections.Counter() for _ in range(5))
     samples = []
     for (pkg, n), c in sorted(accepted.items()):
@@ -176,10 +259,10 @@ def run(ctx):
         root = S[schema["root"]]
         p = pyres["%s/%d" % (pkg, n)]
         py_ok = bool(p["ok"])
-        py_enc = p.get("enc") if py_ok else None
+        py_enc = pc.tok(p.get("enc")) if py_ok else None
         g = gores.get("%s/%d" % (pkg, n))
         has_go = bool(g is not None and g.get("std_err") is None and "enc" in g and not g.get("enc_err") and not g.get("panic"))
-        go_enc = g["enc"] if has_go else None
+        go_enc = pc.tok(g["enc"]) if has_go else None
         want = sc.jv_to_py(c["norm"])
         if not sc.json_equal(sc.norm_py(S, root, c["py"]), want):
             raise core.Inconclusive("python and TLC disagree on Norm of %s" % sc.dumps(c["py"]))
@@ -209,7 +292,12 @@ def run(ctx):
                 "real": {"python": py_enc, "python_error": None if py_ok else "%s: %s" % (p.get("stage"), p.get("err")), "go": go_enc}}
         if not py_ok:
             exc = (p.get("err") or "error").split(":")[0]
-            ecls = "null-element-of-collection" if null_in_collection(schema, c["py"]) else cls
+            # class of an exception: where a null sits if the document has one the decoder must look at, else the message itself
+            # (without package / class names): the same defect shows at every position and under every label
+            about_none = "NoneType" in (p.get("err") or "")
+            ecls = "null-element-of-collection" if (about_none and null_in_collection(schema, c["py"])) else \
+                "null-for-nullable-field" if (about_none and null_for_nullable_field(schema, c["py"])) else \
+                "-".join(re.findall(r"[a-z_]+", re.sub(r"@\S+", "", (p.get("err") or "").split(":", 1)[-1]).lower())[:8])
             ctx.fail("C11/python/roundtrip/raises-%s-in-%s:%s/%s" % (exc, p.get("stage"), ecls, u["fmt"]),
                      "from_json/to_json of the accepted document %s raises %s (stage %s)" % (sc.dumps(c["py"]), p.get("err"), p.get("stage")), base)
         elif not rt_ok:
@@ -221,10 +309,43 @@ def run(ctx):
             ctx.fail("C11/python/wire-agreement/%s/%s" % (dcls, u["fmt"]),
                      "for the document %s Go writes %s, Python writes %s: differ at %s" % (sc.dumps(c["py"]), sc.dumps(go_enc), sc.dumps(py_enc), ".".join(dpath)), base)
         e = pyres.get("%s/%d/e" % (pkg, n))
-        if e is not None and py_ok and (not e["ok"] or not sc.json_equal(e["enc"], py_enc)):
+        if e is not None and py_ok and (not e["ok"] or not sc.json_equal(pc.tok(e["enc"]), py_enc)):
             ctx.fail("C11/python/roundtrip/encoder-differs-from-to_json:%s/%s" % (cls, u["fmt"]),
                      "encoding the object through the generated JSONEncoder gives %s, encoding its to_json() gives %s" % (
                          sc.dumps(py_enc), sc.dumps(e.get("enc")) if e["ok"] else e.get("err")), base)
+        # ---- both directions (thorough): the other SDK reads what this one wrote and writes it back unchanged
+        for direction, res, src in (("python-reads-go", cross_py.get("%s/%d" % (pkg, n)), go_enc),
+                                    ("go-reads-python", cross_go.get("%s/%d" % (pkg, n)), py_enc)):
+            if res is None or src is None or not has_go:      # a document Go cannot decode at all is C01's (decode), not a wire matter
+                continue
+            acc = sc.accepts_py(S, root, src)
+            if direction == "python-reads-go":
+                ok = bool(res["ok"])
+                err = None if ok else "%s: %s" % (res.get("stage"), res.get("err"))
+            else:
+                ok = bool(res.get("std_err") is None and "enc" in res and not res.get("enc_err") and not res.get("panic"))
+                err = None if ok else (res.get("std_err") or res.get("enc_err") or res.get("panic"))
+            out = pc.tok(res["enc"]) if ok else None
+            cv = set()
+            if acc and not (ok and sc.json_equal(sc.norm_py(S, root, out), sc.norm_py(S, root, src))):
+                cv.add(("Cross",))
+            if not tw.add_cross(pkg, c, src, acc, ok, out):
+                dropped["outside-number-universe"] += 1
+                continue
+            order.append((pkg, dict(c, cross=direction), cv))
+            per_clause[direction] += 1 if acc else 0
+            if cv and verdict:
+                cross_implied += 1        # the direct comparison of this document already failed: reported there
+            elif cv:
+                if not ok:
+                    dcls, dpath = "raises:" + "-".join(re.findall(r"[a-z]+", (err or "").lower())[:6]), ()
+                else:
+                    dcls, dpath = diff_class(schema, c["py"], sc.norm_py(S, root, src), sc.norm_py(S, root, out))
+                ctx.fail("C11/python/wire-agreement/%s:%s/%s" % (direction, dcls, u["fmt"]),
+                         "%s: %s wrote %s for the document %s; the other SDK %s" % (
+                             direction, "Go" if direction == "python-reads-go" else "Python", sc.dumps(pc.detok(src)), sc.dumps(c["real"]),
+                             "fails to read it: %s" % err if not ok else "reads it and writes %s (differs at %s)" % (sc.dumps(pc.detok(out)), ".".join(dpath))),
+                         dict(base, deep=True, cross={"direction": direction, "source": pc.detok(src), "output": pc.detok(out) if ok else None, "error": err}))
         if len(samples) < 3 and c["f"] != "base" and (n + ctx.seed) % 11 == 0:
             samples.append({"package": pkg, "leaf": entry["leaf"], "pos": entry["pos"], "label": c["f"], "path": c["p"], "doc": c["py"],
                             "expected_norm": want, "python": py_enc, "go": go_enc, "violated": sorted(v[0] for v in verdict)})
@@ -239,8 +360,8 @@ def run(ctx):
         if ("SpecVsValidator",) in tv:
             raise core.Inconclusive("TLC: Accepts rejects a document the harness judged accepted (%s #%d)" % (pkg, c["n"]))
         if tv != verdict:
-            raise core.Inconclusive("TLC and the python join disagree on %s #%d (%s): TLC %s, python %s" % (
-                pkg, c["n"], sc.dumps(c["py"]), sorted(tv), sorted(verdict)))
+            raise core.Inconclusive("TLC and the python join disagree on %s #%d%s (%s): TLC %s, python %s" % (
+                pkg, c["n"], " " + c["cross"] if c.get("cross") else "", sc.dumps(c["py"]), sorted(tv), sorted(verdict)))
         if not tv:
             agree_n += 1
 
@@ -255,7 +376,7 @@ def run(ctx):
             raise core.Inconclusive("Accepts and the reference validators disagree on %d of %d documents" % (dropped["spec-validator-disagree"], n_docs))
 
     binding = None
-    good = [(pkg, c) for pkg, c, v in order if not v and gores.get("%s/%d" % (pkg, c["n"]))]
+    good = [(pkg, c) for pkg, c, v in order if not v and not c.get("cross") and gores.get("%s/%d" % (pkg, c["n"]))]
     if good and not replay:
         pkg, c = good[ctx.seed % len(good)]
         p = pyres["%s/%d" % (pkg, c["n"])]
@@ -269,7 +390,13 @@ def run(ctx):
     elif not replay:
         raise core.Inconclusive("no record that holds: binding self-test impossible")
 
+    witnesses = collections.defaultdict(set)
+    for f in ctx.failures:
+        witnesses[f["signature"]].add("%s@%s %s" % (f["replay"]["leaf"], f["replay"]["pos"], f["replay"]["label"]))
     cov = {
+        "failure_witnesses": {k: sorted(v)[:25] for k, v in sorted(witnesses.items())},
+        "cross_direction_failures_implied_by_the_direct_comparison": cross_implied,
+        "generated_schema_pool": batch.generated_pool,
         "states": sum(r["distinct"] for r in ctx.tlc_runs),
         "transitions": sum(r["generated"] for r in ctx.tlc_runs),
         "traces_validated_against_impl": agree_n,
